@@ -167,10 +167,17 @@ func CheckC09(c *Ctx) (*Outcome, error) {
 		return nil, err
 	}
 	found = append(found, f2...)
-	nCrash := 18
+	nCrash, nDrop := 18, 8
 	if c.Tier == "thorough" {
-		nCrash = 120
+		nCrash, nDrop = 120, 80
 	}
+	fd, err := c.RunCases(nDrop, func(i int) ([]*History, error) {
+		return []*History{NameThenDrop(c.Rng("c09-name-then-drop", i))}, nil
+	}, JudgeC09, note)
+	if err != nil {
+		return nil, err
+	}
+	found = append(found, fd...)
 	fc, err := c.RunCases(nCrash, func(i int) ([]*History, error) {
 		rng := c.Rng("c09-crash-shrink", i)
 		return []*History{CrashThenShrink(rng, i%6, []string{"crash-before", "crash-after", "crash-torn"}[(i/6)%3])}, nil
